@@ -20,9 +20,10 @@ theorem sim_all {env : Env} {file : AFile} {G : List String} {P : Prog} {F : GFi
     have b := stepB hl n
     have v := stepV hl ih.u ih.b
     have l := stepL ih.a ih.l
-    have c := stepC hl v ih.a l ih.me ih.mv ih.mu
-    have a := stepA c ih.v ih.c ih.a
-    ⟨u, b, v, a, c, l, stepME hl ih.a ih.me, stepMV hl ih.a ih.mv, stepMU ih.a⟩
+    have g := stepG hl ih.u
+    have c := stepC hl v ih.a l ih.me ih.mv ih.mu g
+    have a := stepA c ih.v ih.c ih.a ih.g
+    ⟨u, b, v, a, c, l, stepME hl ih.a ih.me, stepMV hl ih.a ih.mv, stepMU ih.a, g⟩
 
 /-- the `Sem` program of an ANF file -/
 def progOf (file : AFile) : Prog := { fns := file.map AFn.toFn }
